@@ -85,6 +85,12 @@ static void cases(Harness &H, const std::vector<mpq_class> &gp) {
           eps.push_back({"lincomb(a,b)", 0, [](auto &x, auto &y, auto &) { std::vector<S> c{mki<S>(2), mki<S>(3)}; std::vector<Spline<S, oa>> v{x, y}; return dump(bspline::linearCombination(c, v)); }});
           eps.push_back({"lincomb(b,a)", 0, [](auto &x, auto &y, auto &) { std::vector<S> c{mki<S>(2), mki<S>(3)}; std::vector<Spline<S, oa>> v{y, x}; return dump(bspline::linearCombination(c, v)); }});
           eps.push_back({"lincomb(a,a,b)", 0, [](auto &x, auto &y, auto &) { std::vector<S> c{mki<S>(2), mki<S>(3), mki<S>(5)}; std::vector<Spline<S, oa>> v{x, x, y}; return dump(bspline::linearCombination(c.begin(), c.end(), v.begin(), v.end())); }});
+          // the coefficient values must not matter for the refusal: zero on the odd-grid spline, zero elsewhere, all zero
+          eps.push_back({"lincomb(a,b);c=(2,0)", 0, [](auto &x, auto &y, auto &) { std::vector<S> c{mki<S>(2), mki<S>(0)}; std::vector<Spline<S, oa>> v{x, y}; return dump(bspline::linearCombination(c, v)); }});
+          eps.push_back({"lincomb(b,a);c=(0,3)", 0, [](auto &x, auto &y, auto &) { std::vector<S> c{mki<S>(0), mki<S>(3)}; std::vector<Spline<S, oa>> v{y, x}; return dump(bspline::linearCombination(c, v)); }});
+          eps.push_back({"lincomb(a,b);c=(0,3)", 0, [](auto &x, auto &y, auto &) { std::vector<S> c{mki<S>(0), mki<S>(3)}; std::vector<Spline<S, oa>> v{x, y}; return dump(bspline::linearCombination(c.begin(), c.end(), v.begin(), v.end())); }});
+          eps.push_back({"lincomb(a,b);c=(0,0)", 0, [](auto &x, auto &y, auto &) { std::vector<S> c{mki<S>(0), mki<S>(0)}; std::vector<Spline<S, oa>> v{x, y}; return dump(bspline::linearCombination(c, v)); }});
+          eps.push_back({"lincomb(a,a,b);c=(2,3,0)", 0, [](auto &x, auto &y, auto &) { std::vector<S> c{mki<S>(2), mki<S>(3), mki<S>(0)}; std::vector<Spline<S, oa>> v{x, x, y}; return dump(bspline::linearCombination(c, v)); }});
           eps.push_back({"lincomb(a,b,a)", 0, [](auto &x, auto &y, auto &) { std::vector<S> c{mki<S>(2), mki<S>(3), mki<S>(5)}; std::vector<Spline<S, oa>> v{x, y, x}; return dump(bspline::linearCombination(c, v)); }});
         }
         eps.push_back({"BilinearForm{}(a,b)", 0, [](auto &x, auto &y, auto &) { return val(BilinearForm{}(x, y)).get_str(); }});
